@@ -38,26 +38,29 @@ KeyedOps == [op : {"push", "push_increase", "push_decrease", "change_priority", 
 RemoveOps == [op : {"remove"}, k : Items]
 PlainPops == [op : PopOps]
 CondPops  == [op : PopIfOps, yes : BOOLEAN, set : {<<>>} \cup {<<p>> : p \in Prios}]
-RetainOps == [op : {"retain"}, keep : SUBSET Items, set : {EmptyFn}]
-RetainMutOps == [op : {"retain_mut"}, keep : SUBSET Items,
-                 set : {EmptyFn} \cup {OneFn(k, p) : k \in Items, p \in Prios}]
+\* (the sets built from SUBSET Items take the item set as a parameter so that TLC does not enumerate them
+\* eagerly as constants when the core alphabet is used over a large universe)
+RetainOps(I) == [op : {"retain"}, keep : SUBSET I, set : {EmptyFn}]
+RetainMutOps(I) == [op : {"retain_mut"}, keep : SUBSET I,
+                    set : {EmptyFn} \cup {OneFn(k, p) : k \in I, p \in Prios}]
 \* (nb: elements taken from the back - only DoublePriorityQueue's IterMut is double ended)
 IterMutOps == [op : {"iter_mut"}, n : 0..Cardinality(Items), nb : IF Kind = "dpq" THEN 0..2 ELSE {0},
                set : {EmptyFn} \cup {OneFn(k, p) : k \in Items, p \in Prios}, forget : {FALSE}]
-PairsUpTo2 == {<<>>} \cup {<< <<k, p>> >> : k \in Items, p \in Prios}
-              \cup {<< <<k1, p1>>, <<k2, p2>> >> : k1 \in Items, p1 \in Prios, k2 \in Items, p2 \in Prios}
-ExtendOps == [op : {"extend"}, pairs : PairsUpTo2, hint : {<<>>, <<0, -1>>}]
+PairsUpTo2(I) == {<<>>} \cup {<< <<k, p>> >> : k \in I, p \in Prios}
+                 \cup {<< <<k1, p1>>, <<k2, p2>> >> : k1 \in I, p1 \in Prios, k2 \in I, p2 \in Prios}
+ExtendOps(I) == [op : {"extend"}, pairs : PairsUpTo2(I), hint : {<<>>, <<0, -1>>}]
 MiscOps == [op : {"clear"}]
 
 \* creation of a queue from a pair sequence (only as the first step of a history)
-PairsUpTo3 == PairsUpTo2 \cup {<< <<k1, p1>>, <<k2, p2>>, <<k3, p3>> >> :
-                                 k1 \in Items, p1 \in Prios, k2 \in Items, p2 \in Prios, k3 \in Items, p3 \in Prios}
-CreateOps == [op : {"from_vec", "from_iter", "de"}, pairs : PairsUpTo3, q : {0}]
+PairsUpTo3(I) == PairsUpTo2(I) \cup {<< <<k1, p1>>, <<k2, p2>>, <<k3, p3>> >> :
+                                 k1 \in I, p1 \in Prios, k2 \in I, p2 \in Prios, k3 \in I, p3 \in Prios}
+CreateOps(I) == [op : {"from_vec", "from_iter", "de"}, pairs : PairsUpTo3(I), q : {0}]
 
 CoreOps == KeyedOps \cup RemoveOps \cup PlainPops
-FullOps == KeyedOps \cup RemoveOps \cup PlainPops \cup CondPops \cup RetainOps \cup RetainMutOps
-            \cup IterMutOps \cup ExtendOps \cup MiscOps
-StateOps == IF Alphabet = "core" THEN CoreOps ELSE FullOps
+FullOps(I) == KeyedOps \cup RemoveOps \cup PlainPops \cup CondPops \cup RetainOps(I) \cup RetainMutOps(I)
+              \cup IterMutOps \cup ExtendOps(I) \cup MiscOps
+StateOpsOf(I) == IF Alphabet = "core" THEN CoreOps ELSE FullOps(I)
+StateOps == StateOpsOf(Items)
 
 \* read-only probes (executed by the harness from every state; no model transition)
 ReadOps == [op : IF Kind = "pq" THEN {"peek"} ELSE {"peek_min", "peek_max"}]
@@ -96,7 +99,7 @@ Create(op) == LET r == Apply(Kind, Empty, op, Inf) IN
               /\ hist' = <<op>>
               /\ bad' = {<<op.op, t>> : t \in CreateFails(op, r)}
 
-Next == (\E op \in StateOps : Step(op)) \/ (Alphabet = "full" /\ \E op \in CreateOps : Create(op))
+Next == (\E op \in StateOps : Step(op)) \/ (Alphabet = "full" /\ \E op \in CreateOps(Items) : Create(op))
 
 \* ------------------------------------------------------------------ properties
 WFInv  == WF(st)
@@ -112,6 +115,6 @@ View == <<st.pri, st.heap, st.qp, bad>>
 
 \* ------------------------------------------------------------------ emission
 EmitInv == Emit => PrintT(<<"REPLAY", ToJson([kind |-> Kind, steps |-> hist])>>)
-EmitProbes == PrintT(<<"PROBES", ToJson(StateOps \cup ReadOps)>>)
-ASSUME Emit => EmitProbes
+EmitProbes(I) == PrintT(<<"PROBES", ToJson(StateOpsOf(I) \cup ReadOps)>>)
+ASSUME Emit => EmitProbes(Items)
 =============================================================================
